@@ -248,6 +248,8 @@ def rewrite_for_loops(body, notes):
         if not m:
             return body
         var = m.group(1)
+        if var == "_":
+            var = "__for_i%d" % guard      # `for _ in a..b`: the counter needs a name
         o = _body_open(body, m.end())
         e = match_brace(body, o)
         iter_expr = body[m.end():o].strip()
